@@ -412,6 +412,11 @@ def run(ck):
                         ck.check(len(saves) == 1 and not scalls, "C17.R4", inst + ":only the metadata is written", ssite, "metadata_only=True does not write exactly the metadata")
                         payload = saves[0][1][0] if saves else None
                     else:
+                        if not scalls and saves:
+                            # the file is written some other way than through nn_state.save (the property does not name the routine):
+                            # what reaches the file is not followed here
+                            ck.undecided("C17.R4", inst + ":nn_state.save called once", ssite, "the model file is written by torch.save without a call of nn_state.save: what is written is not followed")
+                            continue
                         ck.check(len(scalls) == 1, "C17.R4", inst + ":nn_state.save called once", ssite, "nn_state.save is called %d times" % len(scalls))
                         payload = scalls[0][5].get("metadata") if scalls else None
                     if mname == "dict":
